@@ -77,7 +77,7 @@ fn c02_scenario(fault: bool) -> impl Strategy<Value = Scenario> {
         Dgram::Std(StdReq { ietf, words, nonce: Hex(crate::refcrypto::sha512(&[b"recur", &[k]])[..n].to_vec()), srv: if ietf && srv { SrvOpt::Correct } else { SrvOpt::Absent }, vers: if ietf { vec![VER_DRAFT13] } else { vec![] } })
     });
     let step = vec_of(
-        (0u8..48, prop_oneof![12 => std_req().prop_map(Dgram::Std), 2 => recurring, 1 => invalid_dgram()]).prop_map(|(sock, d)| Send { sock, d }).boxed(),
+        (0u8..48, prop_oneof![12 => std_req().prop_map(Dgram::Std), 2 => recurring, 1 => invalid_dgram(), 2 => any_dgram()]).prop_map(|(sock, d)| Send { sock, d }).boxed(),
         prop_oneof![2 => 1usize..=8, 3 => 1usize..=70, 1 => 64usize..=130],
     );
     (seed32(), batch_size_strategy(), if fault { (1u8..=50).boxed() } else { Just(0u8).boxed() }, proptest::collection::vec(step, 1..=6))
@@ -664,6 +664,8 @@ pub fn run(which: Which, ctx: &mut Ctx) -> Vec<Violation> {
                     grid.push(Dgram::Std(StdReq { ietf, words: w, nonce: Hex(vec![0x6c; if ietf { 32 } else { 64 }]), srv: SrvOpt::Absent, vers: if ietf { vec![VER_DRAFT13] } else { vec![] } }));
                 }
             }
+            // the required tags plus every pair of known tags, in ascending wire order and with the pair exchanged
+            grid.extend(tag_order_grid());
             let chunks: Vec<Vec<Dgram>> = grid.chunks(32).map(|c| c.to_vec()).collect();
             let v2 = run_enum(
                 ctx,
@@ -673,7 +675,7 @@ pub fn run(which: Which, ctx: &mut Ctx) -> Vec<Violation> {
                 |ctx, sc| run_scenario(ctx, Which::C07, sc),
             );
             if v2.is_empty() && ctx.shard == 0 {
-                ctx.stats.exhaustive_spaces.push("every declared frame length 0..=2048 on a 1024-byte IETF request; every aligned total size 960..=1560 of a well-formed request, both protocols".into());
+                ctx.stats.exhaustive_spaces.push("every declared frame length 0..=2048 on a 1024-byte IETF request; every aligned total size 960..=1560 of a well-formed request, both protocols; required tags + every pair of the 18 known tags in ascending and in exchanged order, both protocols".into());
             }
             out.extend(v2);
             if v.is_empty() && ctx.shard == 0 {
